@@ -188,7 +188,14 @@ def sweep_all_lengths(ctx, FP, rng, certified):
             y = xf * b
             tl_y = math.cos(L * math.acos(y)) if abs(y) <= 1 else math.cosh(L * math.acosh(abs(y)))
             off = max(off, abs(float_probability(ph, lam) - (1 - (delta * tl_y) ** 2)))
-        if off > 1e-7:
+        if off > 1e-4:
+            # far beyond anything rounding can do (the 2x2 product of <= 401 unitary factors is accurate to ~1e-13): the point
+            # itself is the failing input; the certificate (which has to fail, slowly, for long sequences) is not needed
+            ctx.count("all-lengths-sweep:gross-deviation")
+            ctx.violation("c18:probability", "success probability deviates from 1 - delta^2 T_L(T_{1/L}(1/delta) sqrt(1-lambda))^2 by %.3e at a sampled lambda "
+                          "(d=%d, delta=%r; binary64 evaluation of the defined reflection sequence, rounding error below 1e-12)" % (off, d, delta),
+                          dict(replay, float_deviation=off, phases=ph[:12]))
+        elif off > 1e-7:
             ctx.count("all-lengths-sweep:escalated-to-certificate")
             one(ctx, FP, d, delta)
 
